@@ -1,7 +1,8 @@
 From Coq Require Import Extraction ExtrOcamlBasic.
-From LTV.C20 Require Import Model.
+From LTV.C20 Require Import Model Fetcher FetcherX.
 Set Extraction Optimize.
 Extraction Language OCaml.
 Extraction "extracted/c20_model.ml" start step current_fixes all_fixes reject_build mask_num msize bytes_of
   send_metadata_piece send_metadata_piece_old params_ok
-  do_peer_exchange erase_conn init default_conn set_conns.
+  do_peer_exchange erase_conn init default_conn set_conns
+  gstep ginit.
